@@ -921,7 +921,13 @@ func Generate(o genOpts) []Input {
 			add(rs, ct, nil, rs.Query, bodyVariant{seedBody(fam, ""), "seed", "valid seed"})
 			// (i) every byte string of length <= 3 over the 14-symbol alphabet (aliases of a handler: <= 2 in quick)
 			strs := all3
-			if alias && !o.Thorough {
+			sameDecoderAgain := false
+			for _, prev := range rs.Variants[:ci] {
+				if prev.Family == fam {
+					sameDecoderAgain = true // another Content-Type value that selects the same decoder
+				}
+			}
+			if (alias || sameDecoderAgain) && !o.Thorough {
 				strs = all2
 			}
 			for _, s := range strs {
@@ -944,11 +950,20 @@ func Generate(o genOpts) []Input {
 			case "dd_series":
 				vs = jsonVariants(ddSeriesSeed(""), o.Thorough, (*jnode).String)
 			case "zipkin_json":
-				vs = jsonVariants(jA(zipkinSpan("", 1), zipkinSpan("", 2)), o.Thorough, (*jnode).String)
+				if o.Thorough {
+					vs = jsonVariants(jA(zipkinSpan("", 1), zipkinSpan("", 2)), true, (*jnode).String)
+				} else {
+					// quick: mutate a one-span batch (the number of pairs is quadratic in the number of nodes)
+					vs = jsonVariants(jA(zipkinSpan("", 1)), false, (*jnode).String)
+				}
 			case "elastic_doc":
 				vs = jsonVariants(elasticDocSeed(""), o.Thorough, (*jnode).String)
 			case "zipkin_ndjson":
-				vs = ndjsonVariants([]*jnode{zipkinSpan("", 1), zipkinSpan("", 2)}, o.Thorough)
+				if o.Thorough {
+					vs = ndjsonVariants([]*jnode{zipkinSpan("", 1), zipkinSpan("", 2)}, true)
+				} else {
+					vs = ndjsonVariants([]*jnode{zipkinSpan("", 1), jO("traceId", jS("0123456789abcdef0123456789abcde2"), "id", jS("0123456789abcde2"))}, false)
+				}
 			case "dd_cf":
 				vs = ndjsonVariants(ddCFLines(""), o.Thorough)
 			case "elastic_bulk":
